@@ -708,3 +708,41 @@ func min(a, b int) int {
 	}
 	return b
 }
+
+// GenFor draws a non-NULL value that fits an existing column format: the given
+// precision/scale for numerics and at most maxLen bytes for character/binary data
+// (maxLen 0 = no limit).
+func GenFor(rt *rapid.T, tw TW, prec, scale, maxLen int) Val {
+	v := Gen(rt, tw)
+	switch tw.T {
+	case rc.TDecN, rc.TNumN:
+		v.Prec, v.Scal = prec, scale
+		m, _ := new(big.Int).SetString(v.Mag, 10)
+		m.Mod(m, pow10(prec))
+		v.Mag = m.String()
+		if m.Sign() == 0 {
+			v.Neg = false
+		}
+	case rc.TBinary, rc.TVarBinary, rc.TLongBinary, rc.TImage, rc.TXML:
+		if maxLen > 0 && len(v.B) > maxLen {
+			v.B = v.B[:maxLen]
+		}
+	case rc.TChar, rc.TVarChar, rc.TLongChar, rc.TText:
+		if maxLen > 0 && len(v.S) > maxLen {
+			v.S = strings.ToValidUTF8(v.S[:maxLen], "")
+			if v.S == "" {
+				v.S = "x"
+			}
+		}
+	case rc.TUnitext:
+		for maxLen > 0 && len(v.S) > 1 {
+			enc, _ := rc.Encode(v.V)
+			if len(enc) <= maxLen {
+				break
+			}
+			r := []rune(v.S)
+			v.S = string(r[:len(r)/2])
+		}
+	}
+	return v
+}
